@@ -165,7 +165,9 @@ def group_by_until_(
                 observer.on_error(ex)
 
             def on_completed() -> None:
-                for wrt in writers.values():
+                # completing a group may complete a duration derived from that
+                # group, whose expire() removes it from writers: iterate a copy
+                for wrt in list(writers.values()):
                     wrt.on_completed()
 
                 observer.on_completed()
